@@ -242,4 +242,8 @@ View == <<st, cfg>>
 \* VIEW, so it is evaluated on every generated transition, also into known states)
 NoViolation == viol = {}
 
+\* C16 at the design level: in every reachable state the paired requests are
+\* indistinguishable to the client
+NoInterference == NIViolations(st, cfg) = {}
+
 =============================================================================
